@@ -80,11 +80,12 @@ func (r *Reflog) load(rootGoitPath string, head *Head, refs *Refs) error {
 		}
 
 		// extract recType
-		sp2 := strings.Split(sp1[2], "\t")
+		// "<identity> <time> <zone>\t<kind>: <message>": the message is everything after the first ": "
+		sp2 := strings.SplitN(sp1[2], "\t", 2)
 		if len(sp2) != 2 {
 			continue
 		}
-		sp3 := strings.Split(sp2[1], ": ")
+		sp3 := strings.SplitN(sp2[1], ": ", 2)
 		if len(sp3) != 2 {
 			continue
 		}
